@@ -52,6 +52,27 @@ class C02(Prop):
             fl = rng.choice(["local", "threads"])
             fields = ([("locktrace", ["1"])] if fl == "threads" else []) + [("pipe", [pipe])]
             out.append(Case("time", fl, fields, evs, {"kind": "time-" + mode, "cut": cut}))
+        # a later task finishes before an earlier one (legal for any executor), another notification arrives,
+        # then unsubscribe: every task still pending must be cancelled whatever bookkeeping the operator did
+        # in between (delay / observe_on keep one handle per notification in a shared composite)
+        for head in (["observeon"], ["delay", "0"], ["delay", "2"]):
+            for k in (2, 3):
+                for j in range(1, k):
+                    for nxt in (["emit", "0", ["n", "9"]], ["emit", "0", "c"], None):
+                        for fl in ("local", "threads"):
+                            evs = [["sub"]] + [["emit", "0", ["n", str(i + 1)]] for i in range(k)]
+                            if head == ["delay", "2"]:
+                                evs += [["run"], ["adv", "2"], ["fire", str(j)]]
+                            evs += [["poll", str(j)]]
+                            if nxt:
+                                evs.append(nxt)
+                            cut = len(evs)
+                            evs += [["unsub"], ["run"], ["adv", "5"], ["run"], ["emit", "0", ["n", "99"]], ["run"]]
+                            pipe = head + [["hot", "0"]]
+                            if rng.random() < 0.3:
+                                pipe = ["map", "add1", pipe]
+                            out.append(Case("time", fl, [("pipe", [pipe])], evs,
+                                            {"kind": "time-overtake", "cut": cut}))
         # merge_all / group_by / share (theorems C02M_* over their own models): the histories of the C05 / C20 /
         # C11 populations that unsubscribe somewhere; full lines compared from the first unsubscription on
         import importlib
